@@ -80,7 +80,7 @@ Definition cache_step (s : cst) (o : sop) : cst * sout :=
       (mkC u' (match out with RBool true => c_set c pk cc (Some (exp_of now ttl, new)) | _ => c end) now, out)
   | OCad pk cc e =>
       let '(u', out) := ustep u o in
-      (mkC u' (match out with RBool true => c_del c pk cc | _ => c end) now, out)
+      (mkC u' (match out with RBool true => if cache_delete_leaves_marker then c_set c pk cc None else c_del c pk cc | _ => c end) now, out)
   | OTTLGet pk cc =>
       match c_get c pk cc with
       | Some None => (s, RGet None)
@@ -195,13 +195,15 @@ Definition reader_fill (o : rop) (got : option N) (c : option (option N)) : opti
   | OpTTLGet, None => if cache_ttlget_negative_fill_guarded then fill_if_absent c None else Some None
   end.
 
-Definition sch_step (s : sch) (p : pid) : option (sch * sobs) :=
+(* [mk]: does a successful CompareAndDelete leave a "not found" entry in the cache (true, the code
+   since the repair of finding F8b) or drop the entry (false, the code before) *)
+Definition sch_step_gen (mk : bool) (s : sch) (p : pid) : option (sch * sobs) :=
   match p with
   | PW =>
       match s_wpc s with
       | Some w =>
           (* cache update + return *)
-          let c' := match w with WDel => None | _ => Some (wcontent w) end in
+          let c' := match w with WDel => if mk then Some None else None | _ => Some (wcontent w) end in
           Some (mkSch (s_store s) c' None (s_wprog s) (s_started s) (s_started s) (s_hist s) (s_readers s), SWDone)
       | None =>
           match s_wprog s with
@@ -228,17 +230,21 @@ Definition sch_step (s : sch) (p : pid) : option (sch * sobs) :=
       end
   end.
 
+Definition sch_step := sch_step_gen cache_delete_leaves_marker.
+
 Definition sch_init (init : option N) (prog : list wop) (readers : list (list rop)) : sch :=
   mkSch init None None prog 0 0 [init] (map (fun g => (RIdle, g)) readers).
 
-Fixpoint sch_run (s : sch) (ps : list pid) : option (list sobs) :=
+Fixpoint sch_run_gen (mk : bool) (s : sch) (ps : list pid) : option (list sobs) :=
   match ps with
   | [] => Some []
-  | p :: r => match sch_step s p with
+  | p :: r => match sch_step_gen mk s p with
               | None => None
-              | Some (s', o) => option_map (cons o) (sch_run s' r)
+              | Some (s', o) => option_map (cons o) (sch_run_gen mk s' r)
               end
   end.
+
+Definition sch_run := sch_run_gen cache_delete_leaves_marker.
 
 Record ctrace := mkCTrace { ct_init : option N; ct_prog : list wop; ct_readers : list (list rop);
                             ct_sched : list pid; ct_obs : list sobs }.
